@@ -317,9 +317,12 @@ class PusTm(AbstractPusTm):
         )
         if (
             expected_packet_len
-            < pus_tm.pus_tm_sec_header.header_size + SPACE_PACKET_HEADER_SIZE
+            < pus_tm.pus_tm_sec_header.header_size + SPACE_PACKET_HEADER_SIZE + 2
         ):
-            raise ValueError("passed packet too short")
+            raise ValueError(
+                f"declared packet length {expected_packet_len} too small for PUS TM"
+                " secondary header, timestamp and CRC16"
+            )
         pus_tm._source_data = data[
             pus_tm.pus_tm_sec_header.header_size
             + SPACE_PACKET_HEADER_SIZE : expected_packet_len
